@@ -51,7 +51,6 @@ L20 = ["0", "1", "2", "7", "010", "0x1F", "0xFFFFFFFF", "2147483647", "214748364
 LX = ["00", "0X1f", "0x7fffffff", "0x80000000", "017777777777", "037777777777", "0xffffffffffffffff",
       "0x7FFFFFFFFFFFFFFF", "0x8000000000000000", "9223372036854775807", "4294967296", "1lu", "1LLU",
       "10uLL", "0l", "0u"]
-L10 = ["0", "1", "7", "010", "0x1F", "0xFFFFFFFF", "2147483647", "2U", "3l", "'\\n'"]
 UNOPS = ["+", "-"]
 BINOPS = ["+", "-", "*", "/", "%", "<<", ">>", "&", "|", "^"]
 PREC = {"*": 11, "/": 11, "%": 11, "+": 10, "-": 10, "<<": 9, ">>": 9, "&": 6, "^": 5, "|": 4}
@@ -60,7 +59,7 @@ S3_THOROUGH = ["1", "7", "0x1F", "2147483647"]
 S4_LITS = ["2", "7"]
 CONST_TYPES = ["int", "unsigned int", "long", "unsigned long", "long long", "unsigned long long", "short",
                "unsigned char"]
-BLOCK = 1000
+BLOCK = 600
 MODES = ("inline", "abi", "api")
 
 # expression nodes: ("L", text) | ("U", op, e) | ("B", op, l, r)
@@ -137,9 +136,6 @@ def families(ctx):
     if ctx.quick:
         s1 = [("B", op, lit(a), lit(b)) for op in BINOPS for a in L20 for b in L20]
         fam.append(("S1 all binary operations over the 20 literals", s1))
-        atoms = [lit(t) for t in L10] + [("U", "-", lit(t)) for t in L10]
-        s2 = [("B", op, a, b) for op in BINOPS for a in atoms for b in atoms]
-        fam.append(("S2 all binary operations over atoms {l, -l}, l in a 10-literal subset", s2))
         fam.append(("S3 all trees of depth <= 2 over literals %s except binary roots with two binary children"
                     % S3_QUICK, trees_depth2_one_deep_child(S3_QUICK)))
     else:
@@ -684,7 +680,15 @@ def work(job):
     seen = {}
     ffi_inline = run_mode("inline", items, want, out, seen=seen)
     run_abi(items, want, out, ffi_inline, seen)
-    run_mode("api", items, want, out)
+    # batching only: what cdef() itself refused in-line is declared alone again (it would make
+    # the whole module's cdef() fail and force a search by halving, every step a compilation)
+    refused = set(i for m, i, site, kind, _, _ in out if m == "inline" and kind == "rejected")
+    for it in items:
+        if it[0] in refused:
+            run_mode("api", [it], want, out)
+    rest = [it for it in items if it[0] not in refused]
+    if rest:
+        run_mode("api", rest, want, out)
     bad_idx = set()
     for mode, i, site, kind, got, exp in out:
         e, t, v, fl = info[i]
